@@ -1,13 +1,16 @@
 package main
 
 import (
+	"crypto/sha256"
 	"encoding/hex"
+	"encoding/json"
 	"fmt"
 	"math/rand"
 	"reflect"
 	"sort"
 	"strings"
 	"sync"
+	"time"
 
 	"go.sia.tech/core/consensus"
 	"go.sia.tech/core/types"
@@ -35,7 +38,9 @@ type idRegistry struct {
 	clash []string
 }
 
-func newRegistry() *idRegistry { return &idRegistry{byID: map[[32]byte]string{}, kinds: map[string]int{}} }
+func newRegistry() *idRegistry {
+	return &idRegistry{byID: map[[32]byte]string{}, kinds: map[string]int{}}
+}
 
 func (g *idRegistry) put(kind string, parent []byte, i int, id [32]byte) {
 	key := fmt.Sprintf("%s|%x|%d", kind, parent, i)
@@ -195,6 +200,11 @@ type blockMutStats struct {
 	mutants, idChanged, rejected, panicked int
 	byEra                                  map[string]map[string]int
 	patterns                               map[string]string
+	// the same changes made LATER: to a copy whose identifier was computed and that was validated before
+	later, laterIDChanged, laterRejected int
+	// members the identifier does not bind (not transmitted): changing one alone must change nothing
+	unbound, unboundSame int
+	unboundPatterns      map[string]int
 }
 
 func isHeaderLeaf(path string, v2 bool) bool {
@@ -208,8 +218,29 @@ func isHeaderLeaf(path string, v2 bool) bool {
 	return false
 }
 
+// effectOf applies the block to its parent state and returns the digest of what a node keeps of it: the encoded child
+// state and the update handed to subscribers.
+func effectOf(hv harvested, b types.Block) (digest string, pan any) {
+	defer func() { pan = recover() }()
+	cs, au := consensus.ApplyBlock(hv.prev, b, hv.supp, time.Time{})
+	js, err := json.Marshal(au)
+	if err != nil {
+		panic(err)
+	}
+	enc, p := wb.TypeByName("consensus_State").SafeEncode(&cs)
+	if p != nil {
+		panic(p)
+	}
+	h := sha256.Sum256(append(enc, js...))
+	return hex.EncodeToString(h[:12]), nil
+}
+
 // blockMutations mutates single leaves of an accepted block (header members excepted): the real code must give the
-// mutant another ID or refuse it.
+// mutant another ID or refuse it - for a mutant built before anything was computed from it, and for the same change
+// made LATER, in place, to a copy of the block whose identifier and header were computed and that ValidateBlock had
+// accepted ("any later change to a block's content is rejected or yields a different ID").  Members that no
+// identifier binds (the specification's lines mark them as not transmitted: two such blocks are ONE block to every
+// other node) must have no effect: same identifier, same verdict, same child state and update.
 func (k *checker) blockMutations(hv harvested, r *rand.Rand, maxLeaves int, st *blockMutStats) {
 	c := k.c
 	b := hv.block
@@ -224,12 +255,19 @@ func (k *checker) blockMutations(hv harvested, r *rand.Rand, maxLeaves int, st *
 	if b.V2 != nil {
 		era = "v2-block"
 	}
+	if st.byEra[era] == nil {
+		st.byEra[era] = map[string]int{}
+	}
 	order := r.Perm(len(leaves))
 	sort.SliceStable(order, func(i, j int) bool {
 		_, a := st.patterns[era+":"+pattern(leaves[order[i]].Path)]
 		_, bb := st.patterns[era+":"+pattern(leaves[order[j]].Path)]
 		return !a && bb
 	})
+	validate := func(mb *types.Block) (verr error, pan any) {
+		defer func() { pan = recover() }()
+		return consensus.ValidateBlock(hv.prev, *mb, hv.supp), nil
+	}
 	done := 0
 	for _, li := range order {
 		if done >= maxLeaves {
@@ -238,8 +276,9 @@ func (k *checker) blockMutations(hv harvested, r *rand.Rand, maxLeaves int, st *
 		if isHeaderLeaf(leaves[li].Path, b.V2 != nil) || leaves[li].Influence == wb.MustNot {
 			continue
 		}
+		seed := r.Int63()
 		m := wb.Clone(reflect.ValueOf(ptr)).Interface().(*types.V2Block)
-		leaf, err := wb.MutateLeaf(k.s, "V2Block", m, li, r)
+		leaf, err := wb.MutateLeaf(k.s, "V2Block", m, li, rand.New(rand.NewSource(seed)))
 		if err != nil {
 			continue
 		}
@@ -256,32 +295,124 @@ func (k *checker) blockMutations(hv harvested, r *rand.Rand, maxLeaves int, st *
 		}
 		st.mutants++
 		st.patterns[era+":"+pattern(leaf.Path)] = "mutated"
-		if st.byEra[era] == nil {
-			st.byEra[era] = map[string]int{}
-		}
 		if mid != bid {
 			st.idChanged++
 			st.byEra[era]["id-changed"]++
+		} else {
+			verr, pan := validate(mb)
+			switch {
+			case pan != nil:
+				st.panicked++ // a crash is not an acceptance (crashes are judged by C10)
+				st.byEra[era]["panicked"]++
+			case verr != nil:
+				st.rejected++
+				st.byEra[era]["rejected"]++
+			default:
+				key := "block/" + era + "/content-change-accepted-under-same-id:" + fieldKey(leaf.Path)
+				c.Violation(key, fmt.Sprintf("%s: changing %s alone (header kept) leaves Block.ID() unchanged and ValidateBlock accepts the changed block", era, leaf.Path),
+					map[string]any{"leaf": leaf.Path, "height": hv.prev.Index.Height + 1, "block_id": hex.EncodeToString(bid[:]),
+						"block_hex": hexOf(wb.TypeByName("V2Block"), ptr), "mutant_hex": hexOf(wb.TypeByName("V2Block"), m)})
+			}
+		}
+		// ---- the same change, later: the copy has been identified and validated, then it is changed in place
+		u := wb.Fresh(reflect.ValueOf(ptr)).Interface().(*types.V2Block)
+		ub := (*types.Block)(u)
+		if pan, _ := recoverHash(func() types.Hash256 { ub.Header(); return types.Hash256(ub.ID()) }); pan != nil {
 			continue
 		}
-		var verr error
-		var pan any
-		func() {
-			defer func() { pan = recover() }()
-			verr = consensus.ValidateBlock(hv.prev, *mb, hv.supp)
-		}()
+		if verr, pan := validate(ub); verr != nil || pan != nil {
+			continue // (a copy of an accepted block that is refused is C09's subject)
+		}
+		if _, err := wb.MutateLeaf(k.s, "V2Block", u, li, rand.New(rand.NewSource(seed))); err != nil {
+			continue
+		}
+		var uid types.BlockID
+		if pan, _ := recoverHash(func() types.Hash256 { uid = ub.ID(); return types.Hash256{} }); pan != nil {
+			continue
+		}
+		st.later++
+		if uid != mid {
+			key := "block/" + era + "/later-change/id-differs-from-fresh-mutant"
+			c.Violation(key, fmt.Sprintf("%s: %s changed in place after the block was identified and validated: Block.ID() is %x, the same content built afresh has %x", era, leaf.Path, uid[:6], mid[:6]),
+				map[string]any{"leaf": leaf.Path, "height": hv.prev.Index.Height + 1, "block_id": hex.EncodeToString(bid[:]), "type": "V2Block", "bytes_hex": hexOf(wb.TypeByName("V2Block"), ptr),
+					"mutant_hex": hexOf(wb.TypeByName("V2Block"), m)})
+		}
+		if uid != bid {
+			st.laterIDChanged++
+			continue
+		}
+		verr, pan := validate(ub)
 		switch {
 		case pan != nil:
-			st.panicked++ // a crash is not an acceptance (crashes are judged by C10)
-			st.byEra[era]["panicked"]++
 		case verr != nil:
-			st.rejected++
-			st.byEra[era]["rejected"]++
+			st.laterRejected++
 		default:
-			key := "block/" + era + "/content-change-accepted-under-same-id:" + fieldKey(leaf.Path)
-			c.Violation(key, fmt.Sprintf("%s: changing %s alone (header kept) leaves Block.ID() unchanged and ValidateBlock accepts the changed block", era, leaf.Path),
-				map[string]any{"leaf": leaf.Path, "height": hv.prev.Index.Height + 1, "block_id": hex.EncodeToString(bid[:]),
-					"block_hex": hexOf(wb.TypeByName("V2Block"), ptr), "mutant_hex": hexOf(wb.TypeByName("V2Block"), m)})
+			key := "block/" + era + "/later-change-accepted-under-same-id"
+			c.Violation(key, fmt.Sprintf("%s: %s changed in place after the block was identified and validated (header kept): Block.ID() is unchanged and ValidateBlock accepts the changed block", era, leaf.Path),
+				map[string]any{"leaf": leaf.Path, "height": hv.prev.Index.Height + 1, "block_id": hex.EncodeToString(bid[:]), "type": "V2Block", "bytes_hex": hexOf(wb.TypeByName("V2Block"), ptr),
+					"mutant_hex": hexOf(wb.TypeByName("V2Block"), m)})
 		}
+	}
+
+	// ---- members no identifier binds
+	var nts []int
+	for _, li := range r.Perm(len(leaves)) {
+		// (the sub-second part of the header's timestamp is a header member: the property keeps header members fixed)
+		if leaves[li].Influence == wb.MustNot && !isHeaderLeaf(leaves[li].Path, b.V2 != nil) {
+			nts = append(nts, li)
+		}
+	}
+	if len(nts) == 0 {
+		return
+	}
+	sort.SliceStable(nts, func(i, j int) bool {
+		return st.unboundPatterns[era+":"+pattern(leaves[nts[i]].Path)] < st.unboundPatterns[era+":"+pattern(leaves[nts[j]].Path)]
+	})
+	baseEffect, bpan := effectOf(hv, (types.Block)(*wb.Fresh(reflect.ValueOf(ptr)).Interface().(*types.V2Block)))
+	if bpan != nil {
+		return // an accepted block that cannot be applied is not this property's subject (C10)
+	}
+	for n, li := range nts {
+		if n >= maxLeaves/3+2 {
+			break
+		}
+		m := wb.Clone(reflect.ValueOf(ptr)).Interface().(*types.V2Block)
+		leaf, err := wb.MutateLeaf(k.s, "V2Block", m, li, r)
+		if err != nil {
+			continue
+		}
+		mabs, err := wb.Abstract(k.s, "V2Block", m)
+		if err != nil {
+			continue
+		}
+		if !wb.EqualAbstract(base, mabs) {
+			c.Infra("block: changing the untransmitted member %s changed the block's abstract value", leaf.Path)
+			continue
+		}
+		if reflect.DeepEqual(*m, *ptr) && leaf.Kind != "nanos" {
+			continue
+		}
+		mb := (*types.Block)(m)
+		st.unbound++
+		st.unboundPatterns[era+":"+pattern(leaf.Path)]++
+		pay := map[string]any{"leaf": leaf.Path, "height": hv.prev.Index.Height + 1, "block_id": hex.EncodeToString(bid[:]), "type": "V2Block", "bytes_hex": hexOf(wb.TypeByName("V2Block"), ptr),
+			"block": fmt.Sprintf("%+v", b), "changed_block": fmt.Sprintf("%+v", *mb), "source": hv.from}
+		fk := fieldKey(leaf.Path)
+		if pan, id := recoverHash(func() types.Hash256 { return types.Hash256(mb.ID()) }); pan != nil || id != types.Hash256(bid) {
+			c.Violation("block/"+era+"/untransmitted-member-bound:"+fk, fmt.Sprintf("%s: %s is not transmitted, yet changing it alone changes Block.ID() (%v)", era, leaf.Path, pan), pay)
+			continue
+		}
+		if verr, pan := validate(mb); verr != nil || pan != nil {
+			c.Violation("block/"+era+"/untransmitted-member-decides-verdict:"+fk,
+				fmt.Sprintf("%s: %s is not transmitted and no identifier binds it, yet with it changed the accepted block is refused (%v %v)", era, leaf.Path, verr, pan), pay)
+			continue
+		}
+		eff, pan := effectOf(hv, *mb)
+		if pan != nil || eff != baseEffect {
+			c.Violation("block/"+era+"/unbound-member-has-effect:"+fk,
+				fmt.Sprintf("%s: %s is not transmitted and no identifier binds it (same Block.ID(), same transaction IDs), yet with it changed ApplyBlock yields another child state or update (%v)", era, leaf.Path, pan), pay)
+			continue
+		}
+		st.unboundSame++
 	}
 }
